@@ -10,6 +10,10 @@ AVX2 = 'lightmotif/src/pli/platform/avx2.rs'
 
 PYLIB = 'lightmotif-py/lightmotif/lib.rs'
 
+IO = 'lightmotif-io/src/'
+
+PYIO = 'lightmotif-py/lightmotif/io.rs'
+
 MUTANTS = [
     # ---- C05
     dict(id='c05-accept-lowercase', prop='C05', rule='R5.1', file=ABC, old="b'N' => Ok(Nucleotide::N),", new="b'N' | b'n' => Ok(Nucleotide::N),"),
@@ -55,6 +59,33 @@ MUTANTS = [
     dict(id='c08-score-position-wraps', prop='C08', rule='R8.3', file=PWM, old="score = score.saturating_add(row[s[pos + j].as_index()]);", new="score = score.wrapping_add(row[s[pos + j].as_index()]);"),
     dict(id='c08-wrong-row-offset', prop='C08', rule='R8.1', file=PWM, old="((pssm[i][j] - offsets[i]) / factor).ceil() as u8", new="((pssm[i][j] - offsets[0]) / factor).ceil() as u8"),
     dict(id='c08-prefilter-up-threshold', prop='C08', rule='R8.4', file=SCAN, old="best_discrete = self.dm.scale(score);", new="best_discrete = dscore;"),
+    # ---- C14
+    dict(id='c14-transposed-fill', prop='C14', rule='R14.1', file=IO+'jaspar16/parse.rs', old="            matrix[i][s.as_index()] = x\n", new="            matrix[s.as_index() % 1 + i][(i + s.as_index()) % A::K::USIZE] = x\n"),
+    dict(id='c14-row-offset', prop='C14', rule='R14.1', file=IO+'uniprobe/parse.rs', old="            matrix[i][s.as_index()] = x\n", new="            let r = matrix.rows() - 1 - i;\n            matrix[r][s.as_index()] = x\n"),
+    dict(id='c14-transfac-wrong-symbol', prop='C14', rule='R14.1', file=IO+'transfac/parse.rs', old="                        matrix[i][s.as_index()] = c;", new="                        matrix[i][symbols[0].as_index()] = c;"),
+    dict(id='c14-jaspar-row-order', prop='C14', rule='R14.2', file=IO+'jaspar/parse.rs', old="let symbols = &[Nucleotide::A, Nucleotide::C, Nucleotide::G, Nucleotide::T];", new="let symbols = &[Nucleotide::A, Nucleotide::C, Nucleotide::T, Nucleotide::G];"),
+    dict(id='c14-jaspar-array-order', prop='C14', rule='R14.2', file=IO+'jaspar/parse.rs', old="let g = GenericArray::from([a, c, g, t]);", new="let g = GenericArray::from([a, g, c, t]);"),
+    dict(id='c14-done-not-marked', prop='C14', rule='R14.3', file=IO+'jaspar16/parse.rs', old="        done[s.as_index()] = true;\n", new=""),
+    dict(id='c14-fill-buf', prop='C14', rule='R14.4', file=IO+'uniprobe/mod.rs', old="            match self.bufread.read_line(&mut self.buffer) {\n                Err(e) => return Some(Err(Error::from(e))),\n                Ok(0) => return None,", new="            if let Ok(b) = self.bufread.fill_buf() { if b.is_empty() { return None; } }\n            match self.bufread.read_line(&mut self.buffer) {\n                Err(e) => return Some(Err(Error::from(e))),\n                Ok(0) => return None,"),
+    dict(id='c14-transfac-no-clear', prop='C14', rule='R14.5', file=IO+'transfac/reader.rs', old="            self.buffer.clear();\n            self.last = 0;\n            Some(Ok(record))", new="            self.last = 0;\n            Some(Ok(record))"),
+    dict(id='c14-compaction-shift', prop='C14', rule='R14.5b', file=IO+'jaspar/mod.rs', old="self.buffer.copy_within(self.start.., 0);", new="self.buffer.copy_within(self.start + 1.., 0);"),
+    dict(id='c14-crossed-fields', prop='C14', rule='R14.6', file=IO+'jaspar/parse.rs', old="            id: id.to_string(),\n            description: description.map(String::from),", new="            id: description.unwrap_or(id).to_string(),\n            description: Some(id.to_string()),"),
+    dict(id='c14-py-crossed', prop='C14', rule='R14.6', file=PYIO, old="                description,\n                accession,\n                id,", new="                description,\n                accession: id,\n                id: accession,"),
+    dict(id='c14-tag-crossed', prop='C14', rule='R14.6', file=IO+'transfac/parse.rs', old='                let (rest, line) = preceded(tag("NA"), parse_line)(input)?;\n                name = Some(line.trim().to_string());', new='                let (rest, line) = preceded(tag("NA"), parse_line)(input)?;\n                id = Some(line.trim().to_string());'),
+    # ---- C15
+    dict(id='c15-new-underflow', prop='C15', rule='R15.1', file=IO+'jaspar/mod.rs', old="            .unwrap_or(1)\n            .saturating_sub(1);", new="            .unwrap_or(1)\n            - 1;"),
+    dict(id='c15-unimplemented', prop='C15', rule='R15.1', file=IO+'jaspar/parse.rs', old="        Err(_) => Err(nom::Err::Failure(nom::error::Error::new(\n            input,\n            nom::error::ErrorKind::Verify,\n        ))),", new="        Err(_) => unimplemented!(),"),
+    dict(id='c15-uniprobe-empty', prop='C15', rule='R15.1', file=IO+'uniprobe/parse.rs', old="    if input.is_empty() {\n        return Err(InvalidData);\n    }\n", new=""),
+    dict(id='c15-streaming', prop='C15', rule='R15.2', file=IO+'transfac/parse.rs', old="use nom::character::complete::space1;", new="use nom::character::streaming::space1;"),
+    dict(id='c15-advance-underflow', prop='C15', rule='R15.1', file=IO+'jaspar16/mod.rs', old="self.start += text.len() - rest.len();", new="self.start += n + 1 - rest.len();"),
+    dict(id='c15-new-unwrap', prop='C15', rule='R15.1', file=IO+'uniprobe/mod.rs', old="        let id = match self::parse::id(&self.buffer) {\n            Err(e) => return Some(Err(Error::from(e))),\n            Ok((_, x)) => x.to_string(),\n        };", new="        let id = self::parse::id(&self.buffer).unwrap().1.to_string();"),
+    dict(id='c15-len-check-removed', prop='C15', rule='R15.1', file=IO+'jaspar16/parse.rs', old="        if counts.len() != matrix.rows() {\n            return Err(InvalidData);\n        }\n", new=""),
+    dict(id='c15-many0', prop='C15', rule='R15.1', file=IO+'jaspar16/parse.rs', old="map_res(nom::multi::many1(matrix_column::<A>), build_matrix::<A>)(input)", new="map_res(nom::multi::many0(matrix_column::<A>), build_matrix::<A>)(input)"),
+    dict(id='c15-tag-added', prop='C15', rule='R15.1', file=IO+'transfac/parse.rs', old='| "RN" | "XX" | "//" => Ok((rest, tag)),', new='| "RN" | "XX" | "//" | "OS" => Ok((rest, tag)),'),
+    dict(id='c15-loop-no-eof', prop='C15', rule='R15.4', file=IO+'transfac/reader.rs', old="                Err(e) => return Some(Err(Error::from(e))),\n                Ok(0) => break,\n                Ok(n) => {", new="                Err(e) => return Some(Err(Error::from(e))),\n                Ok(n) => {"),
+    dict(id='c15-last-not-reset', prop='C15', rule='R15.1', file=IO+'transfac/reader.rs', old="            self.buffer.clear();\n            self.last = 0;\n            Some(Ok(record))", new="            self.buffer.clear();\n            Some(Ok(record))"),
+    dict(id='c15-compaction-offby1', prop='C15', rule='R15.1', file=IO+'jaspar/mod.rs', old="self.buffer.truncate(n - self.start);", new="self.buffer.truncate(n - self.start - 1);"),
+    dict(id='c15-index-wrong-vec', prop='C15', rule='R15.1', file=IO+'jaspar/parse.rs', old="        for (i, x) in counts.into_iter().enumerate() {\n            matrix[i][s.as_index()] = *x", new="        for (i, x) in counts.into_iter().enumerate() {\n            matrix[i + 1][s.as_index()] = *x"),
     # ---- C18
     dict(id='c18-raw-index', prop='C18', rule='R18.1', file=PYLIB, old="let row = slf.data.get(index_ as usize);", new="let row = slf.data.get(index as usize);", occ=1),
     dict(id='c18-scores-no-normalise', prop='C18', rule='R18.2', file=PYLIB, old="        if index < 0 {\n            index += self.scores.max_index() as isize;\n        }\n", new=""),
@@ -97,6 +128,7 @@ MUTANTS = [
 ]
 
 BENIGN = [
+    dict(id='c15-guard-in-reader', prop='C15', file=IO+'uniprobe/mod.rs', old="        let matrix = match self::parse::build_matrix::<A>(columns) {", new="        if columns.is_empty() {\n            return Some(Err(Error::InvalidData));\n        }\n        let matrix = match self::parse::build_matrix::<A>(columns) {"),
     dict(id='c08-factor-256', prop='C08', file=PWM, old="let factor = (max_score - offset) / (u8::MAX as f32);", new="let factor = (max_score - offset) / 256.0;"),
     dict(id='c08-offsets-are-maxima', prop='C08', file=PWM, old="                    .min_by(|x, y| x.partial_cmp(y).unwrap())\n                    .unwrap()\n            })\n            .cloned()", new="                    .max_by(|x, y| x.partial_cmp(y).unwrap())\n                    .unwrap()\n            })\n            .cloned()"),
     dict(id='c02-if-let-form', prop='C02', file=SCAN, old="if self.pipeline.max(&self.dscores).map_or(false, |m| m >= t) {", new="if matches!(self.pipeline.max(&self.dscores), Some(m) if m >= t) {"),
